@@ -252,6 +252,20 @@ for _pid in ("C13", "C01"):
     PLAN[_pid]["level_note"] += " E3c trusts its MIR-subset translator and the stated callee contracts."
     PLAN[_pid]["outside"] = [o for o in PLAN[_pid]["outside"] if "World-level glue" not in o] + ["World-level glue other than through E3c's counter abstraction (values and identities at World level are argued from the archetype-level harnesses)"]
 
+TECH = {
+    "tables": "z3/cvc5 over the schedule's conflict tables re-extracted from the source (E3a), counterexamples replayed through rustc's trait resolution",
+    "bitwalk": "nightly MIR of the identifier bit walkers translated to bit-vector SMT for a symbolic registry length (E3b, z3+cvc5)",
+    "glue": "assume-guarantee symbolic execution of the World-level glue's MIR over callee contracts (E3c, z3+cvc5)",
+}
+for _pid, _p in PLAN.items():
+    _t = "bounded model checking of the compiled Rust code by Kani/CBMC (SAT verdict over symbolic inputs within concrete shapes)"
+    for _e in _p.get("smt", []):
+        _t += "; " + TECH[_e]
+    _p["technique"] = _t
+PLAN["C06"]["outside"] = [o.replace("whole-World round trip (Archetypes/World Serialize+Deserialize glue, resources)", "whole-World round trip of non-empty worlds (only the empty world with resources goes through World's own Serialize/Deserialize)") for o in PLAN["C06"]["outside"]]
+PLAN["C15"]["thorough"] += ["serrt_q_world_empty"]
+PLAN["C15"]["outside"] = [o.replace("serde round trip of resources", "serde round trip of resources other than on an empty world (thorough tier)") for o in PLAN["C15"]["outside"]]
+
 for _p in PLAN.values():
     _p.setdefault("level", "model_checking")
     _p.setdefault("stubs", [])
